@@ -8,6 +8,11 @@ WT = "/tmp/wt/own"
 OUT = "/verif/mutants/own"
 
 # name -> (properties expected to fire, [(file, old, new), ...])
+# Dropped after analysis because they do NOT break the property as stated (the checks are right to
+# stay silent): an `inv` literal changed consistently (still exactly one absent pattern),
+# the frag_vec capacity check (unreachable: a 5-bit count cannot exceed 31), data_len = offset/8+1
+# (one zero pad byte; frame still well formed and normal), clear_data from index 4 (bytes 1..3 are
+# always rewritten).  See DESIGN.md section 12.
 M = {
     "c03_crc_low16": (["C03", "C04"], [("src/message_frame.rs", "if msg_crc != crc24.get_crc() as u32 {", "if (msg_crc & 0xffff) != (crc24.get_crc() as u32 & 0xffff) {")]),
     "c03_len_mask": (["C03"], [("src/message_frame.rs", "((frame_data[1] as usize & 0b11) << 8)", "((frame_data[1] as usize & 0b111) << 8)")]),
@@ -23,22 +28,12 @@ M = {
             Err(RtcmError::BufferOverflow)""", """        if self.data.len() * 8 < self.offset + len {
             self.offset += len;
             Err(RtcmError::BufferOverflow)""")]),
-    "c08_inv_off_by_one_df399": (["C08"], [("src/df/dfs.rs", """    id: df399,
-    dt: i16,
-    it: I16,
-    len: 14,
-    inv: -0x2000,""", """    id: df399,
-    dt: i16,
-    it: I16,
-    len: 14,
-    inv: -0x1fff,""")]),
     "c11_round_neg_04": (["C11"], [("src/df/mod.rs", """                        } else {
                             -0.5
                         };""", """                        } else {
                             -0.4
                         };""")]),
     "c11_bias1059_always_plus": (["C11"], [("src/df/dfs/df_msg1059_biases.rs", "let bias = if bias > 0.0 { bias + 0.5 } else { bias - 0.5 } as i16;", "let bias = (bias + 0.5) as i16;")]),
-    "c12_clear_from_3": (["C12"], [("src/msg/message.rs", "for d in self.data[1..].iter_mut() {", "for d in self.data[4..].iter_mut() {")]),
     "c12_hasrun_after": (["C12"], [("src/msg/message.rs", """                self.has_run = true;
                 let mut asm = Assembler::new(&mut self.data[3..1026], 0);
                 //encode message number into message
@@ -81,10 +76,6 @@ M = {
     "c15_cap_ge": (["C15", "C02"], [("src/msg/mod.rs", """                let len = par.parse::<U16>($len_bits)? as usize;
                 if len > $cap_name {""", """                let len = par.parse::<U16>($len_bits)? as usize;
                 if len >= $cap_name {""")]),
-    "c15_no_cap_check_fragvec": (["C15", "C02"], [("src/msg/mod.rs", """            pub fn decode(par: &mut Parser, len: usize) -> Result<DataType, RtcmError> {
-                if len > $cap_name {
-                    return Err(RtcmError::CapacityExceeded);
-                }""", """            pub fn decode(par: &mut Parser, len: usize) -> Result<DataType, RtcmError> {""")]),
     "c16_no_satnum_check": (["C16", "C01"], [("src/df/dfs/df_msg1059_biases.rs", """    if sat_num > 63 {
         return Err(RtcmError::CapacityExceeded);
     }
@@ -118,17 +109,6 @@ mod msm123_sat;""")]),
                     return Err(RtcmError::InvalidSatelliteSignalCount);
                 }
 """, "")]),
-    "c09_datalen_plus1": (["C09", "C01"], [("src/msg/message.rs", """                    _ => {
-                        unreachable!();
-                    },
-                }
-                //encode data length
-                let data_len = (asm.offset() - 1)/8 + 1;""", """                    _ => {
-                        unreachable!();
-                    },
-                }
-                //encode data length
-                let data_len = asm.offset()/8 + 1;""")]),
     "c01_1230_no_sort": (["C01", "C16"], [("src/df/dfs/df_msg1230_biases.rs", "    slice.sort_unstable_by(|a, b| a.signal_id.cmp(&b.signal_id));\n", "")]),
     "c14_feature_swapped": (["C14", "C19"], [("src/msg/message.rs", '"msg1303": Msg1303(msg1303) = 1303,\n    "msg1304": Msg1304(msg1304) = 1304', '"msg1304": Msg1303(msg1303) = 1303,\n    "msg1303": Msg1304(msg1304) = 1304'),
                                               ("src/msg/mod.rs", 'include_msg!(msg1303, "msg1303");\ninclude_msg!(msg1304, "msg1304");', 'include_msg!(msg1303, "msg1304");\ninclude_msg!(msg1304, "msg1303");')]),
